@@ -7,6 +7,7 @@ CONSTANTS
   LimTg = 2
   Unit = 4096
   Chunk = 0
+  Slack = 0
   Shipped = {}
   CandRoot <- D2
   CandTs <- D1
@@ -20,6 +21,7 @@ CONSTANTS
   ClockMoves = TRUE
   EnforceChoices = {TRUE, FALSE}
   Reads = TRUE
+  MaxReads = 1000
   Chain0 <- EmptyChain
 CONSTRAINT Progress
 POSTCONDITION TraceAccepted
